@@ -184,11 +184,15 @@ CHECKS = {
         text='Theorems (Coq): erosion with the (kw+2, kh+2) element and zero border = "every pixel of the kernel window grown by one is inside '
              'the grid and set"; the partial mask at a source pixel holds exactly when the processing pixel it falls in and that whole window '
              'are jointly valid and completely covered; subset of the source mask; strictly smaller (a pixel with no set pixel above is removed); '
-             'erosion reach = block overlap, so the mask is block independent. Tie: Kernel.Morph evaluated in Coq against '
-             '_full_coverage_mask on in-memory masks (input grid 1x/2x/4x finer); real fusions with mask_partial=True on aligned dyadic geometries, '
-             'both grids, one vs many blocks: dataset mask == independently computed characterisation, strict subset, block independent.',
-        note='partial: H_down_avg (coverage >= 1 iff all overlapping pixels valid) and nearest re-projection are GDAL oracles; aligned geometries '
-             'only; `joint` is the parameter mask (degenerate gain-offset windows give NaN parameters). D5 fixed (f438c79).',
+             'the erosion computed on one block equals the whole-image erosion at every position up to one pixel beyond the block output window '
+             'when the overlap is at least erosion reach + 1 (C17_seam_sampling_safe; refuted for overlap = reach). Tie: Kernel.Morph evaluated in Coq '
+             'against _full_coverage_mask on in-memory masks (input grid 1x/2x/4x finer) and the overlap process() hands to block_pairs checked in Coq; '
+             'real fusions with mask_partial=True on aligned dyadic geometries, both grids, one vs many blocks: dataset mask == independently computed '
+             'characterisation, strict subset, block independent; unaligned and tie geometries (pixel centres on processing-pixel edges): subset, '
+             'strictness, block independence.',
+        note='partial: H_down_avg (coverage >= 1 iff all overlapping pixels valid) and nearest re-projection are GDAL oracles; the exact '
+             'characterisation is judged on aligned geometries only; `joint` is the parameter mask (degenerate gain-offset windows give NaN parameters). '
+             'D5 fixed (f438c79), D14 fixed (71fa277).',
         technique='Coq proof (forallb over the structuring window) + in-Coq correspondence + exact mask oracle end to end',
         design='5/C17'),
     'C18': dict(
